@@ -561,7 +561,10 @@ class Observer(Monitor):
         self.active = self.rng.random() < 0.6
 
     def on_decision(self, ctx, s, avail):
-        if not self.active or self.rng.random() > self.p:
+        late = bool(avail) and PHASE[avail[0]] in ('showdown', 'kill', 'push')
+        # (the showdown is where stale answers would matter most and it
+        # has few decisions: an active observer asks at every one of them)
+        if not self.active or (not late and self.rng.random() > self.p):
             return
         ctx.counters['observer_query_points'] += 1
         calls = 0
